@@ -1,6 +1,7 @@
 """C25 - PriorityEncoderAllocator never double-allocates (way/index agreement, writer order, effects)."""
 
 from .common import *
+from . import excl
 from ..pm import pmatch, pat, has
 
 REL = "transactron/lib/allocators.py"
@@ -12,6 +13,7 @@ def check(ctx):
     comp.require_modelled("C25")
     ex = one_config(comp, "C25")
     alloc, free, peek, replace, clear = (need_body(ex, n, "C25", comp.site) for n in ("alloc", "free", "peek", "replace", "clear"))
+    excl.exclusive(ctx, "C25", "PriorityQueueAllocator", alloc, free, replace)
     # free mask = what peek returns
     mask = returned_fields(peek).get("mask")
     o = ex.obj(mask) if mask else None
